@@ -321,7 +321,8 @@ def load_jobs(tier, seed):
     jobs = [mc_job('mc_complex_small', 'complex', maxanns=2),
             gen_job('load_p6', 'remove', 6, depth=0 if quick else 1, style=0, reads=['loads'], **big),
             gen_job('load_p10', 'remove', 10, depth=0, style=0, reads=['loads'], **big),
-            gen_job('load_p7', 'offsets', 7, depth=0, style=0, reads=['loads'], MaxAnns=12, MaxRes=3)]
+            gen_job('load_p7', 'offsets', 7, depth=0, style=0, reads=['loads'], MaxAnns=12, MaxRes=3),
+            gen_job('load_p20', 'remove', 20, depth=0, style=0, reads=['loads'], MaxAnns=12, MaxRes=3, MaxData=8, MaxSets=2, MaxKeys=4)]
     if not quick:
         jobs += [gen_job('load_p5', 'remove', 5, depth=1, style=style, reads=['loads'], **big),
                  gen_job('load_p12', 'transpose', 12, depth=0, style=(style + 1) % 5, reads=['loads'], MaxAnns=20, MaxRes=3, MaxData=6, MaxSets=2, MaxKeys=4)]
